@@ -14,6 +14,8 @@ def main():
 
         lim = int(job.get("rlimit_gb", 3)) << 30
         resource.setrlimit(resource.RLIMIT_AS, (lim, lim))
+        # an orphan (parent killed by its own budget) must not spin forever; the verdict never rests on this
+        resource.setrlimit(resource.RLIMIT_CPU, (900, 900))
     except Exception:
         pass
     from picomon import bootstrap
